@@ -122,6 +122,23 @@ def gen_damage(rng, img, spans, classes, tier):
             nb = rng.choice([8, 16, 32])
             st = s['off'] * 8 + rng.randrange(0, 64 - nb + 1)
             out.append(('burst %d bits over the header words of span %d' % (nb, s_i), burst_patches(rng, st, nb, s['off'] * 8 + 64), 'header', s_i))
+    # damage confined to the checksum field that equals the syndrome of a single flipped bit elsewhere in the span:
+    # indistinguishable, for the checksum, from that one-bit error; the document may be lost, never "corrected" into other contents
+    import zlib
+    for s_i, s in enumerate(spans):
+        if s['kind'] != 'A' or s['len'] < 24:
+            continue
+        o, L = s['off'], s['len']
+        body = bytes(img[o:o + L - 4])
+        c0 = zlib.crc32(body)
+        if c0 != int.from_bytes(bytes(img[o + L - 4:o + L]), 'big'):
+            continue
+        for _ in range(2 if tier == 'quick' else 10):
+            b = rng.randrange(8 * 8, 8 * (L - 4))
+            flipped = bytearray(body)
+            flipped[b // 8] ^= 1 << (b % 8)
+            delta = c0 ^ zlib.crc32(bytes(flipped))
+            out.append(('checksum field XOR syndrome of bit %d of span %d' % (b, s_i), [(o + L - 4 + k, (delta >> (24 - 8 * k)) & 0xff) for k in range(4) if (delta >> (24 - 8 * k)) & 0xff], 'crc', s_i))
     # two bursts in two different active spans
     acts = [i for i, s in enumerate(spans) if s['kind'] == 'A' and s['len'] >= 20]
     for _ in range(4 if tier == 'quick' else 30):
@@ -136,6 +153,7 @@ def gen_damage(rng, img, spans, classes, tier):
             ps += burst_patches(rng, rng.randrange(lo, hi - nb + 1), nb, hi)
         out.append(('bursts in spans %d and %d' % (i, j), ps, 'body2', (i, j)))
     rng.shuffle(out)
+    out.sort(key=lambda c: not c[0].startswith('checksum field XOR syndrome'))      # these few always run
     return out
 
 
